@@ -289,18 +289,25 @@ func runC18(c *h.Ctx) {
 			}
 			// whole, and truncated at a random point (both must fail or both consume the same)
 			for _, cut := range []int{n.End, n.Start + cs.R.Intn(n.End-n.Start+1)} {
-				sub := b[n.Start:cut]
+				// the value alone (cursor 0), or in place inside the message (cursor at its start)
+				sub, start := b[n.Start:cut], 0
+				if cs.R.Bool() {
+					sub, start = b[:cut], n.Start
+				}
 				tr := h.TrapCopy(sub, true, true)
-				p1 := &thrift.BinaryProtocol{Buf: tr.B}
+				p1 := &thrift.BinaryProtocol{Buf: tr.B, Read: start}
 				e1 := p1.SkipGo(thrift.Type(n.T), thrift.MaxSkipDepth)
-				p2 := &thrift.BinaryProtocol{Buf: tr.B}
+				p2 := &thrift.BinaryProtocol{Buf: tr.B, Read: start}
 				e2 := p2.SkipNative(thrift.Type(n.T), thrift.MaxSkipDepth)
 				tr.Free()
 				if (e1 == nil) != (e2 == nil) || (e1 == nil && p1.Read != p2.Read) {
-					cs.Viol("flavour:skip:go-vs-native:"+tref.TypeName(n.T), "go-err", e1, "native-err", e2, "go-read", p1.Read, "native-read", p2.Read, "cut", cut-n.Start, "full", n.End-n.Start)
+					cs.Viol("flavour:skip:go-vs-native:"+tref.TypeName(n.T), "go-err", e1, "native-err", e2, "go-read", p1.Read, "native-read", p2.Read, "cut", cut-n.Start, "full", n.End-n.Start, "cursor", start)
 				}
-				if cut == n.End && (e1 != nil || p1.Read != n.End-n.Start) {
-					cs.Viol("flavour:skip:wrong-length:"+tref.TypeName(n.T), "err", e1, "read", p1.Read, "want", n.End-n.Start)
+				if cut == n.End && (e1 != nil || p1.Read-start != n.End-n.Start) {
+					cs.Viol("flavour:skip:wrong-length:"+tref.TypeName(n.T), "err", e1, "read", p1.Read-start, "want", n.End-n.Start, "cursor", start)
+				}
+				if start > 0 {
+					cs.Cover("skip_pairs_from_nonzero_cursor")
 				}
 				cs.Cover("skip_pairs")
 			}
